@@ -75,7 +75,7 @@ RefreshAccOnly == [generate_response_spectrum |-> "rs", gen_response_spectrum |-
 Refresh == IF Kind = "AccSignal" THEN RefreshSig @@ RefreshAccOnly ELSE RefreshSig
 
 \* data mutators: every derived quantity becomes outdated; the code ends in clear_cache
-MutSig == {"reset_values", "reset_values_longer", "reset_values_shorter", "reset_values_list", "add_constant", "add_series", "add_signal", "butter_pass", "butter_pass_gibbs",
+MutSig == {"add_constant_tiny", "reset_values", "reset_values_longer", "reset_values_shorter", "reset_values_list", "add_constant", "add_series", "add_signal", "butter_pass", "butter_pass_gibbs",
            "remove_average", "remove_poly", "running_average"}
 MutAccOnly == {"correct_me", "remove_rolling_average_velocity", "remove_rolling_average_acc",
                "rebase_displacement", "set_zero_residual_velocity", "set_zero_residual_velocity_tz",
